@@ -59,8 +59,10 @@ vals.declare_obj("LayerRuleViolationDetector", dict(_module_requirement="ModuleR
 LD = "LayerRuleViolationDetector"
 # modelling device: the layer detector's record extends the module detector's (same two requirement fields), so the base-class contracts apply to it
 REG.class_bases["LayerRuleViolationDetector"] = ["RuleViolationDetector"]
+# layer names in the detector's proofs: an uninterpreted sort (the detector only compares / hashes them; in the string view they are str)
+vals.TYPE_ALIASES["LayerName"] = ("opaque", "LayerName")
 REG.add(Contract("LayerMapping.get_layer_for_module_name", module=M_EA2, kind="method", status="bounded", pure=True,
-                 params=dict(self="Opaque[LayerMapping]", module_name="Node"), returns="Opt[Str]",
+                 params=dict(self="Opaque[LayerMapping]", module_name="Node"), returns="Opt[LayerName]",
                  note="in the layer detector's proofs (names uninterpreted) the lookup is ONE uninterpreted function layer_of(mapping, name); what that function is -- the layer "
                       "listing the module or a DOTTED ancestor of it -- is proved separately on the real code in the string view (contracts/c_layermap.py: "
                       "LayerMapping.get_layer_for_module_name@str, __init__, _get_layer, _get_layer_or_none); the link between the two views is by name, not by proof"))
@@ -96,10 +98,8 @@ REG.add(Contract(f"{LD}._append_missing_dependencies", module=M_LD, kind="method
 REG.add(Contract(f"{LD}._get_any_missing_dependencies_in_user_specified_order", module=M_LD, kind="method",
                  params=dict(self=LD, not_explicitly_requested_dependencies="Dict[Mod,Bag[Dep]]"), returns="Set[Dep]",
                  # C05: the required access to 'something else' is satisfied ONLY by an import that leaves the layer (an intra-layer import never counts)
-                 ensures=["implies(exists(Dep, lambda x: realised_rel_m(self._module_requirement, not_explicitly_requested_dependencies, x) and cross_layer(self._layer_to_module_mapping, x)), "
-                          "not nonempty(result))",
-                          "implies(not exists(Dep, lambda x: realised_rel_m(self._module_requirement, not_explicitly_requested_dependencies, x) and cross_layer(self._layer_to_module_mapping, x)), "
-                          "nonempty(result) == (exists(Mod, lambda m: m in not_explicitly_requested_dependencies) and nonempty(self._module_requirement._importees_as_specified_by_user)))"],
+                 ensures=[# exact (both inclusions): one (subject module, user-specified object) pair per key, in user order, iff no reported import leaves the layer
+                          "forall(Dep, lambda x: (x in result) == layer_missing_rel(self._module_requirement, self._layer_to_module_mapping, not_explicitly_requested_dependencies, x))"],
                  locals=dict(dependencies="Bag[Dep]"), cases=["self._module_requirement._importer_specified_as_rule_subject"], properties=["C05"]))
 for _name, _K, _rel in (("_should_not_requirement_violations", "Dep", "realised_rel"), ("_should_only_requirement_violations_by_not_explicitly_requested_dependency", "Mod", "realised_rel_m"),
                         ("_should_only_except_requirement_violations_due_to_explicit_dependency_present", "Dep", "realised_rel"), ("_should_not_except_requirement_violations", "Mod", "realised_rel_m")):
@@ -232,3 +232,265 @@ for _variant, _ptype, _is_list, _in in (("", "Str", "False", "l == layers"), ("@
                          f"unwrap(self._rule)._configuration.modules_to_check == unwrap(old(self)._rule)._configuration.modules_to_check)"],
                      properties=["C13", "C16", "C05"]))
 REG.contracts[f"{LR}.are_named"].alt = REG.contracts[f"{LR}.are_named@list"]
+
+# ================================================================ C05: the layer-rule evaluation pipeline (detector buckets, grouping by layers)
+# The detector's proofs keep the layer mapping opaque: layer_of(L, n) (above) and layers_of(L) = the layer names the mapping knows are uninterpreted functions of the
+# mapping object. What they ARE on a real LayerMapping is proved in the string view (c_layermap.py: get_layer_for_module_name@str, all_layers@str).
+REG.add(Contract("LayerMapping.all_layers", module=M_EA2, kind="property", status="abstraction", pure=True,
+                 params=dict(self="Opaque[LayerMapping]"), returns="Bag[LayerName]",
+                 note="opaque view of LayerMapping.all_layers (the keys of the layer definition; proved in the string view as LayerMapping.all_layers@str): ONE uninterpreted set layers_of(mapping)"))
+REG.macro("layers_of", ["L"], "LayerMapping.all_layers(L)")
+# the module of an (importer, importee) pair that decides which OBJECT layer the pair belongs to: the rule object's side
+REG.macro("rel_mod_b", ["subj", "k"], "k[1] if subj else k[0]")
+REG.macro("dep_layer", ["subj", "L", "k"], "layer_of(L, mid(rel_mod_b(subj, k)))")
+# 'no realised import into object layer l': the group of l is non-empty, l is a layer of the mapping, and NO pair of the group has a realisation -> every pair of the group is reported
+REG.define("layer_abstract_b", dict(subj="Bool", L="Opaque[LayerMapping]", r="Dict[Dep,Bag[Dep]]", x="Dep"),
+           "exists(Dep, lambda k: (k in r) and x == order_b(subj, k) and (not is_none(dep_layer(subj, L, k))) and (unwrap(dep_layer(subj, L, k)) in layers_of(L)) and "
+           "grp_unreal_d(subj, L, r, dep_layer(subj, L, k)))")
+# no pair of the group of object layer l has a realisation (dict level / graph level)
+REG.define("grp_unreal_d", dict(subj="Bool", L="Opaque[LayerMapping]", r="Dict[Dep,Bag[Dep]]", l="Opt[LayerName]"),
+           "forall(Dep, lambda k2: implies((k2 in r) and dep_layer(subj, L, k2) == l, not nonempty(r[k2])))")
+REG.define("grp_unreal_g", dict(g="Graph", S="Bag[Filter]", O="Bag[Filter]", subj="Bool", L="Opaque[LayerMapping]", l="Opt[LayerName]"),
+           "forall(Filter, Filter, lambda s2, o2: implies((s2 in S) and (o2 in O) and dep_layer(subj, L, (f2m(s2), f2m(o2))) == l, not exists(Dep, lambda d: deps_rel_d(g, s2, o2, d))))")
+REG.macro("layer_abstract_rel", ["mr", "L", "d", "x"], "layer_abstract_b(mr._importer_specified_as_rule_subject, L, d, x)")
+# 'no access to anything else': reported (one pair per subject module and user-specified object) iff NO reported other-import crosses a layer boundary
+REG.define("layer_missing_b", dict(subj="Bool", objs="Bag[Filter]", L="Opaque[LayerMapping]", r="Dict[Mod,Bag[Dep]]", x="Dep"),
+           "(not exists(Dep, lambda y: realised_m_b(subj, r, y) and cross_layer(L, y))) and exists(Mod, Filter, lambda m, o: (m in r) and (o in objs) and x == (m, f2m(o)))")
+REG.macro("layer_missing_rel", ["mr", "L", "d", "x"], "layer_missing_b(mr._importer_specified_as_rule_subject, mr._importees_as_specified_by_user, L, d, x)")
+
+REG.add(Contract(f"{LD}.__init__", module=M_LD, kind="method",
+                 params=dict(self=LD, module_requirement="ModuleRequirement", behavior_requirement="BehaviorRequirement", layer_mapping="Opaque[LayerMapping]"),
+                 returns="None", modifies=["self"],
+                 ensures=["self._module_requirement == module_requirement", "self._behavior_requirement == behavior_requirement", "self._layer_to_module_mapping == layer_mapping"],
+                 properties=["C05"]))
+REG.add(Contract(f"{LD}._get_module_relevant_for_layer", module=M_LD, kind="method", params=dict(self=LD, dependency="Dep"), returns="Mod",
+                 # C05: pairs are grouped by the layer of the RULE OBJECT's side (importee for 'access', importer for 'be accessed by')
+                 defn="rel_mod_b(self._module_requirement._importer_specified_as_rule_subject, dependency)", properties=["C05"]))
+REG.add(Contract(f"{LD}._get_layer_for_module", module=M_LD, kind="method", params=dict(self=LD, module="Mod"), returns="Opt[LayerName]",
+                 defn="layer_of(self._layer_to_module_mapping, mid(module))", properties=["C05"]))
+_SUBJ = "self._module_requirement._importer_specified_as_rule_subject"
+_LMAP = "self._layer_to_module_mapping"
+REG.add(Contract(f"{LD}._get_abstract_dependencies_without_any_realisations", module=M_LD, kind="method",
+                 params=dict(self=LD, explicitly_requested_dependencies="Dict[Dep,Bag[Dep]]"), returns="Set[Dep]",
+                 # C05: 'access' needs at least ONE import into EACH named object layer: the pairs of an object layer are reported (all of them) iff none of them is realised
+                 ensures=[f"forall(Dep, lambda x: (x in result) == layer_abstract_rel(self._module_requirement, {_LMAP}, explicitly_requested_dependencies, x))"],
+                 locals=dict(result="Set[Dep]", explicitly_requested_dependencies_by_layers="DDict[Opt[LayerName],Dict[Dep,Bag[Dep]]]", explicitly_requested_dependencies_for_layer="Dict[Dep,Bag[Dep]]"),
+                 loops={0: dict(sig="for layer in self._layer_to_module_mapping.all_layers", invariant=[
+                     f"forall(Dep, lambda x: (x in result) == exists(Dep, lambda k: (k in explicitly_requested_dependencies) and x == order_b({_SUBJ}, k) and "
+                     f"(not is_none(dep_layer({_SUBJ}, {_LMAP}, k))) and (unwrap(dep_layer({_SUBJ}, {_LMAP}, k)) in seen) and "
+                     f"forall(Dep, lambda k2: implies((k2 in explicitly_requested_dependencies) and dep_layer({_SUBJ}, {_LMAP}, k2) == dep_layer({_SUBJ}, {_LMAP}, k), "
+                     "not nonempty(explicitly_requested_dependencies[k2])))))"])},
+                 # proof hints (each is itself an obligation): the group read for this layer is exactly the pairs whose rule object lies in it, and none of them has a realisation
+                 ghost_at={"result.update(": [
+                     f"forall(Dep, lambda k: (k in explicitly_requested_dependencies_for_layer) == ((k in explicitly_requested_dependencies) and dep_layer({_SUBJ}, {_LMAP}, k) == layer))",
+                     "forall(Dep, lambda k: implies(k in explicitly_requested_dependencies_for_layer, len(explicitly_requested_dependencies_for_layer[k]) == 0))",
+                     "forall(Dep, lambda k: implies(k in explicitly_requested_dependencies_for_layer, not nonempty(explicitly_requested_dependencies_for_layer[k])))",
+                     "forall(Dep, lambda k: implies(k in explicitly_requested_dependencies_for_layer, not nonempty(explicitly_requested_dependencies[k])))"]},
+                 properties=["C05"]))
+# (quantifiers range over LayerName and the None group separately: a quantified Optional is split into (is-none flag, value), which leaves e-matching without a trigger)
+def _grp(res, extra):
+    D = "explicitly_requested_dependencies"
+    return [f"forall(LayerName, Dep, lambda l, k: ((l in {res}) and (k in {res}[l])) == ({extra}(k in {D}) and dep_layer({_SUBJ}, {_LMAP}, k) == l))",
+            f"forall(Dep, lambda k: ((None in {res}) and (k in {res}[None])) == ({extra}(k in {D}) and is_none(dep_layer({_SUBJ}, {_LMAP}, k))))",
+            f"forall(LayerName, Dep, lambda l, k: implies((l in {res}) and (k in {res}[l]), same_elements({res}[l][k], {D}[k])))",
+            f"forall(Dep, lambda k: implies((None in {res}) and (k in {res}[None]), same_elements({res}[None][k], {D}[k])))",
+            f"forall(LayerName, lambda l: implies(l in {res}, exists(Dep, lambda k: k in {res}[l])))",
+            f"implies(None in {res}, exists(Dep, lambda k: k in {res}[None]))"]
+
+
+REG.add(Contract(f"{LD}._group_explicitly_requested_dependencies_by_layers", module=M_LD, kind="method",
+                 params=dict(self=LD, explicitly_requested_dependencies="Dict[Dep,Bag[Dep]]"), returns="DDict[Opt[LayerName],Dict[Dep,Bag[Dep]]]",
+                 # C05: every abstract pair lands in exactly the group of its rule object's layer (None = the object module is in no layer), with its realisations unchanged;
+                 # there are no other groups and no empty ones
+                 ensures=_grp("result", ""),
+                 locals=dict(result="DDict[Opt[LayerName],Dict[Dep,Bag[Dep]]]"),
+                 loops={0: dict(sig="for (abstract_dependency, concrete_dependencies) in explicitly_requested_dependencies.items()",
+                                invariant=_grp("result", "((k, explicitly_requested_dependencies[k]) in seen) and "))},
+                 properties=["C05"]))
+for _name, _K, _rel in (("_should_requirement_violations", "Dep", "layer_abstract_rel"), ("_should_only_requirement_violations_by_no_import", "Dep", "layer_abstract_rel"),
+                        ("_should_except_requirement_violations", "Mod", "layer_missing_rel"), ("_should_only_except_requirement_violations_due_to_no_other_imports", "Mod", "layer_missing_rel")):
+    _fn = _ex.module(M_LD).function(f"{LD}.{_name}")
+    _an = [a.arg for a in _fn.args.args] if _fn is not None else ["self", "flag", "deps"]
+    REG.add(Contract(f"{LD}.{_name}", module=M_LD, kind="method", params={_an[0]: LD, _an[1]: "Bool", _an[2]: f"Opt[Dict[{_K},Bag[Dep]]]"}, returns="Set[Dep]",
+                     # missing-import buckets of the layer detector: exactly the layer-level relation, and nothing unless the flag is set and the query was made
+                     ensures=[f"forall(Dep, lambda x: (x in result) == ({_an[1]} and (not is_none({_an[2]})) and {_rel}(self._module_requirement, {_LMAP}, unwrap({_an[2]}), x)))"],
+                     properties=["C05"]))
+
+# ================================================================ C05: LayerRuleMatcher -- regex layers are replaced by the matched modules before judging
+# Default view: a LayerMapping is an opaque object with three observers -- layers_of(L) (all_layers), lm_filters(L, layer) (get_module_filters of a mapping built from
+# ModuleFilters: the rule's own layer definition), lm_mods(L, layer) (the same accessor of a mapping built from Modules: the UPDATED mapping the detector judges with) --
+# and one constructor LayerMapping(dict) that yields a mapping whose observers return exactly the dict's keys / values (what LayerMapping.__init__ / all_layers /
+# get_module_filters do is proved on the real code in the string view, c_layermap.py; the link between the two views is by name).
+_LMS, _LNS = vals.opaque_sort("LayerMapping"), vals.opaque_sort("LayerName")
+_f_lm_filters = z3.Function("lm_filters", _LMS, _LNS, z3.ArraySort(vals.DATA["Filter"]["sort"], z3.BoolSort()))
+_f_lm_mods = z3.Function("lm_mods", _LMS, _LNS, z3.ArraySort(vals.DATA["Mod"]["sort"], z3.BoolSort()))
+
+
+@REG.specfun("lm_filters")
+def _lm_filters(eng, st, L, l):
+    return V(("bag", ("data", "Filter")), _f_lm_filters(L.x, l.x))
+
+
+@REG.specfun("lm_mods")
+def _lm_mods(eng, st, L, l):
+    return V(("bag", ("data", "Mod")), _f_lm_mods(L.x, l.x))
+
+
+def _layer_mapping_ctor(reg, eng, st, args, kwargs, node):
+    """LayerMapping(d) in the default view: a FRESH opaque mapping whose observers return d's keys and values (ASSUMED here, listed as trusted; proved on the real
+    constructor / accessors in the string view). Refuses everything but a dict keyed by layer names with lists of filters or of modules."""
+    from pyvc.vals import fresh, fresh_name
+    from pyvc.state import OutOfSubset
+    vs = list(args) + list(kwargs.values())
+    if len(vs) != 1 or vs[0].t[0] != "dict" or vs[0].x is None or vs[0].t[1] != ("opaque", "LayerName") or vs[0].t[2] not in (("bag", ("data", "Filter")), ("bag", ("data", "Mod"))):
+        raise OutOfSubset("LayerMapping(...) on something else than a dict LayerName -> list of filters / modules")
+    d = vs[0]
+    L = fresh(("opaque", "LayerMapping"), "lm")
+    layers = reg.apply_contract(eng, reg.contracts["LayerMapping.all_layers"], [L], {}, st, node)[0][1]
+    obs = _f_lm_filters if d.t[2][1] == ("data", "Filter") else _f_lm_mods
+    l = z3.Const(fresh_name("l"), _LNS)
+    st.assume(z3.ForAll([l], z3.Select(layers.x, l) == z3.Select(d.x[0], l)))
+    st.assume(z3.ForAll([l], z3.Implies(z3.Select(d.x[0], l), obs(L.x, l) == z3.Select(d.x[1], l))))
+    eng.assumed.append("LayerMapping(dict)")
+    return [(st, L)]
+
+
+REG.ctors["LayerMapping"] = _layer_mapping_ctor
+REG.add(Contract("LayerMapping.get_module_filters", module=M_EA2, kind="method", status="abstraction",
+                 params=dict(self="Opaque[LayerMapping]", layer="LayerName"), returns="Bag[Filter]",
+                 raises=[("KeyError", "not (layer in layers_of(self))")], defn="lm_filters(self, layer)",
+                 note="opaque view of LayerMapping.get_module_filters (self._layer_mapping_for_module_filters[layer]; proved in the string view as LayerMapping.get_module_filters@str)"))
+
+_RM_FIELDS_L = dict(
+    _module_requirement="ModuleRequirement", _behavior_requirement="BehaviorRequirement", _updated_module_requirement="ModuleRequirement",
+    _conversion_mapping_importers="Dict[Node,Bag[Mod]]", _conversion_mapping_importees="Dict[Node,Bag[Mod]]",
+    _layer_mapping="Opaque[LayerMapping]", _updated_layer_mapping="Opaque[LayerMapping]")
+vals.declare_obj("LayerRuleMatcher", _RM_FIELDS_L)
+M_RM2 = "pytestarch.rule_assessment.rule_check.rule_matcher"
+LRM = "LayerRuleMatcher"
+# modelling device (as for the detector): the layer matcher's record extends the module matcher's, so the RuleMatcher contracts (stated on DefaultRuleMatcher) apply to it
+REG.class_bases["LayerRuleMatcher"] = ["DefaultRuleMatcher"]
+REG.add(Contract(f"{LRM}.__init__", module=M_RM2, kind="method",
+                 params=dict(self=LRM, module_requirement="ModuleRequirement", behavior_requirement="BehaviorRequirement", layer_mapping="Opaque[LayerMapping]"),
+                 returns="None", modifies=["self"],
+                 ensures=["self._module_requirement == module_requirement", "self._behavior_requirement == behavior_requirement", "self._layer_mapping == layer_mapping"],
+                 properties=["C05"]))
+# the modules a layer consists of after regex expansion: a named module / 'sub modules of' filter as itself; a regex filter as the modules the conversion mapping
+# lists for it -- NOTHING when the mapping has no entry (a regex layer the rule does not mention was never resolved: F05a; its modules are then in no layer)
+REG.macro("lm_expanded", ["F", "C", "m"],
+          "exists(Filter, lambda f: (f in F) and (((not is_regex(f)) and m == f2m(f)) or (is_regex(f) and (fid(f) in C) and (m in C[fid(f)]))))")
+REG.add(Contract(f"{LRM}._replace_regex_specified_modules_with_actual_modules", module=M_RM2, kind="classmethod",
+                 params=dict(layer="LayerName", layer_mapping="Opaque[LayerMapping]", module_name_conversion_mapping="Dict[Node,Bag[Mod]]"), returns="Bag[Mod]",
+                 raises=[("KeyError", "not (layer in layers_of(layer_mapping))")],
+                 ensures=["forall(Mod, lambda m: (m in result) == lm_expanded(lm_filters(layer_mapping, layer), module_name_conversion_mapping, m))"],
+                 locals=dict(result="Bag[Mod]", modules_potentially_with_regexes="Bag[Filter]"),
+                 loops={0: dict(sig="for module in modules_potentially_with_regexes", invariant=[
+                     "forall(Mod, lambda m: (m in result) == lm_expanded(seen, module_name_conversion_mapping, m))"])},
+                 properties=["C05"]))
+REG.macro("lm_updated", ["L0", "C", "L1"],
+          "forall(LayerName, lambda l: (l in layers_of(L1)) == (l in layers_of(L0))) and "
+          "forall(LayerName, Mod, lambda l, m: implies(l in layers_of(L0), (m in lm_mods(L1, l)) == lm_expanded(lm_filters(L0, l), C, m)))")
+REG.add(Contract(f"{LRM}._update_layer_mapping", module=M_RM2, kind="classmethod",
+                 params=dict(layer_mapping="Opaque[LayerMapping]", module_name_conversion_mapping="Dict[Node,Bag[Mod]]"), returns="Opaque[LayerMapping]",
+                 # C05 (F05a): total -- defined for EVERY layer of the architecture, mentioned by the rule or not; same layers, each with its expanded modules
+                 ensures=["lm_updated(layer_mapping, module_name_conversion_mapping, result)"], properties=["C05"]))
+REG.add(Contract(f"{LRM}._get_rule_violation_detector", module=M_RM2, kind="method",
+                 params=dict(self=LRM, module_name_conversion_mapping="Dict[Node,Bag[Mod]]"), returns=LD, modifies=["self"],
+                 ensures=["result._module_requirement == self._updated_module_requirement", "result._behavior_requirement == self._behavior_requirement",
+                          "result._layer_to_module_mapping == self._updated_layer_mapping",
+                          "lm_updated(self._layer_mapping, module_name_conversion_mapping, self._updated_layer_mapping)"]
+                 + [f"self.{f} == old(self).{f}" for f in _RM_FIELDS_L if f != "_updated_layer_mapping"],
+                 properties=["C05"]))
+REG.add(Contract(f"{LRM}._create_rule_violation_message_generator", module=M_RM2, kind="method", status="assumed", params=dict(self=LRM), returns="Opaque[MessageGenerator]",
+                 note="message text only: irrelevant for the verdict (C03 covers the records)"))
+
+# ================================================================ C05: the eight buckets of a layer rule, and the verdict of LayerRuleMatcher.match
+REG.macro("layer_viol_buckets", ["mr", "b", "L", "expl", "nexpl", "r"],
+          "forall(Dep, lambda x: (x in r.should_not_violations) == (b.should_not and (not b.behavior_exception) and (not is_none(expl)) and realised_rel(mr, unwrap(expl), x) and cross_layer(L, x))) "
+          "and forall(Dep, lambda x: (x in r.should_violations) == (b.should and (not b.behavior_exception) and (not is_none(expl)) and layer_abstract_rel(mr, L, unwrap(expl), x))) "
+          "and forall(Dep, lambda x: (x in r.should_only_violations_by_no_import) == (b.should_only and (not b.behavior_exception) and (not is_none(expl)) and layer_abstract_rel(mr, L, unwrap(expl), x))) "
+          "and forall(Dep, lambda x: (x in r.should_only_violations_by_forbidden_import) == (b.should_only and (not b.behavior_exception) and (not is_none(nexpl)) and realised_rel_m(mr, unwrap(nexpl), x) and cross_layer(L, x))) "
+          "and forall(Dep, lambda x: (x in r.should_except_violations) == (b.should and b.behavior_exception and (not is_none(nexpl)) and layer_missing_rel(mr, L, unwrap(nexpl), x))) "
+          "and forall(Dep, lambda x: (x in r.should_only_except_violations_by_no_import) == (b.should_only and b.behavior_exception and (not is_none(nexpl)) and layer_missing_rel(mr, L, unwrap(nexpl), x))) "
+          "and forall(Dep, lambda x: (x in r.should_only_except_violations_by_forbidden_import) == (b.should_only and b.behavior_exception and (not is_none(expl)) and realised_rel(mr, unwrap(expl), x) and cross_layer(L, x))) "
+          "and forall(Dep, lambda x: (x in r.should_not_except_violations) == (b.should_not and b.behavior_exception and (not is_none(nexpl)) and realised_rel_m(mr, unwrap(nexpl), x) and cross_layer(L, x)))")
+# the inherited get_rule_violation, verified AGAIN with the layer detector as receiver (its bucket methods are the overriding ones)
+REG.add(Contract(f"{LD}.get_rule_violation", module="pytestarch.rule_assessment.rule_check.rule_violation_detector", qualname="RuleViolationBaseDetector.get_rule_violation", kind="method",
+                 params=dict(self=LD, explicitly_requested_dependencies="Opt[Dict[Dep,Bag[Dep]]]", not_explicitly_requested_dependencies="Opt[Dict[Mod,Bag[Dep]]]"), returns="RuleViolations",
+                 ensures=["layer_viol_buckets(self._module_requirement, self._behavior_requirement, self._layer_to_module_mapping, explicitly_requested_dependencies, not_explicitly_requested_dependencies, result)"],
+                 opaque=["layer_abstract_b", "layer_missing_b", "realised_b", "realised_m_b"], properties=["C05"]))
+# the regex -> modules table handed to the layer matcher: the union of what the two conversions (subjects, objects) found per regex
+REG.add(Contract(f"{LRM}._create_module_name_regex_conversion_mapping", module=M_RM2, qualname="RuleMatcher._create_module_name_regex_conversion_mapping", kind="method",
+                 params=dict(self=LRM), returns="Dict[Node,Bag[Mod]]",
+                 ensures=["forall(Node, lambda k: (k in result) == ((k in self._conversion_mapping_importers) or (k in self._conversion_mapping_importees)))",
+                          "forall(Node, Mod, lambda k, x: implies(k in result, (x in result[k]) == (((k in self._conversion_mapping_importers) and (x in self._conversion_mapping_importers[k])) or "
+                          "((k in self._conversion_mapping_importees) and (x in self._conversion_mapping_importees[k])))))"],
+                 locals=dict(result="Dict[Node,Bag[Mod]]", existing_values="Set[Mod]"),
+                 loops={0: dict(sig="for (key, values) in self._conversion_mapping_importees.items()", invariant=[
+                     "forall(Node, lambda k: (k in result) == ((k in self._conversion_mapping_importers) or ((k, self._conversion_mapping_importees[k]) in seen)))",
+                     "forall(Node, Mod, lambda k, x: implies(k in result, (x in result[k]) == (((k in self._conversion_mapping_importers) and (x in self._conversion_mapping_importers[k])) or "
+                     "(((k, self._conversion_mapping_importees[k]) in seen) and (x in self._conversion_mapping_importees[k])))))"])},
+                 properties=["C05"]))
+
+# ================================================================ LayerRule.__init__ (C16: a fresh layer rule has neither an architecture nor an inner rule)
+REG.add(Contract(f"{LR}.__init__", module=M_LA, kind="method", params=dict(self=LR, rule_matcher_class="Opaque[Class]"), returns="None", modifies=["self"],
+                 defaults=dict(rule_matcher_class="LayerRuleMatcher"),
+                 ensures=["is_none(self._rule)", "is_none(self._architecture)", "self._rule_matcher_class == rule_matcher_class"], properties=["C05", "C16", "C13"]))
+
+# ================================================================ C05: the layer buckets as functions of the GRAPH (no dicts) -- LayerRuleMatcher._find_rule_violations
+# S = importers, O = importees of the converted requirement, objs = the rule objects as specified by the user, L = the updated layer mapping
+REG.define("G_layer_abstract_b", dict(g="Graph", S="Bag[Filter]", O="Bag[Filter]", subj="Bool", L="Opaque[LayerMapping]", x="Dep"),
+           "exists(Filter, Filter, lambda s, o: (s in S) and (o in O) and x == order_b(subj, (f2m(s), f2m(o))) and (not is_none(dep_layer(subj, L, (f2m(s), f2m(o))))) and "
+           "(unwrap(dep_layer(subj, L, (f2m(s), f2m(o)))) in layers_of(L)) and grp_unreal_g(g, S, O, subj, L, dep_layer(subj, L, (f2m(s), f2m(o)))))")
+REG.define("G_layer_missing_f", dict(g="Graph", S="Bag[Filter]", O="Bag[Filter]", objs="Bag[Filter]", L="Opaque[LayerMapping]", x="Dep"),
+           "(not exists(Dep, lambda y: G_or_f(g, S, O, y) and cross_layer(L, y))) and exists(Filter, Filter, lambda s, ob: (s in S) and (ob in objs) and x == (f2m(s), f2m(ob)))")
+REG.define("G_layer_missing_r", dict(g="Graph", S="Bag[Filter]", O="Bag[Filter]", objs="Bag[Filter]", L="Opaque[LayerMapping]", x="Dep"),
+           "(not exists(Dep, lambda y: G_or_r(g, S, O, y) and cross_layer(L, y))) and exists(Filter, Filter, lambda o, ob: (o in O) and (ob in objs) and x == (f2m(o), f2m(ob)))")
+_LPL = dict(g="Graph", S="Bag[Filter]", O="Bag[Filter]", subj="Bool", L="Opaque[LayerMapping]", r="Dict[Dep,Bag[Dep]]")
+REG.lemma("LL_grp", params=_LPL, requires=["GD_post(g, S, O, r)"],
+          ensures=["forall(LayerName, lambda l: implies(grp_unreal_d(subj, L, r, l), grp_unreal_g(g, S, O, subj, L, l)))", "forall(LayerName, lambda l: implies(grp_unreal_g(g, S, O, subj, L, l), grp_unreal_d(subj, L, r, l)))"], cases=["subj"], properties=["C05"])
+REG.lemma("LL_abstract", params=_LPL, requires=["GD_post(g, S, O, r)"],
+          ensures=["forall(Dep, lambda x: layer_abstract_b(subj, L, r, x) == G_layer_abstract_b(g, S, O, subj, L, x))"], use=["LL_grp(g, S, O, subj, L, r)"],
+          opaque=["grp_unreal_d", "grp_unreal_g"], cases=["subj"], properties=["C05"])
+_LML = dict(g="Graph", S="Bag[Filter]", O="Bag[Filter]", objs="Bag[Filter]", L="Opaque[LayerMapping]", r="Dict[Mod,Bag[Dep]]")
+REG.lemma("LL_missing_f", params=_LML, requires=["AD_post(g, S, O, r)"],
+          ensures=["forall(Dep, lambda x: layer_missing_b(True, objs, L, r, x) == G_layer_missing_f(g, S, O, objs, L, x))"],
+          use=["L_or_f(g, S, O, objs, r)"], opaque=["realised_m_b", "G_or_f"], properties=["C05"])
+REG.lemma("LL_missing_r", params=_LML, requires=["AO_post(g, S, O, r)"],
+          ensures=["forall(Dep, lambda x: layer_missing_b(False, objs, L, r, x) == G_layer_missing_r(g, S, O, objs, L, x))"],
+          use=["L_or_r(g, S, O, objs, r)"], opaque=["realised_m_b", "G_or_r"], properties=["C05"])
+REG.macro("G_layer_abstract", ["g", "u", "L", "x"], "G_layer_abstract_b(g, u._importers, u._importees, u._importer_specified_as_rule_subject, L, x)")
+REG.macro("G_layer_missing", ["g", "u", "L", "x"],
+          "(u._importer_specified_as_rule_subject and G_layer_missing_f(g, u._importers, u._importees, u._importees_as_specified_by_user, L, x)) or "
+          "((not u._importer_specified_as_rule_subject) and G_layer_missing_r(g, u._importers, u._importees, u._importees_as_specified_by_user, L, x))")
+REG.macro("layer_FV_post", ["g", "u", "b", "L", "r"],
+          "forall(Dep, lambda x: (x in r.should_not_violations) == (b.should_not and (not b.behavior_exception) and G_realised(g, u, x) and cross_layer(L, x))) "
+          "and forall(Dep, lambda x: (x in r.should_violations) == (b.should and (not b.behavior_exception) and G_layer_abstract(g, u, L, x))) "
+          "and forall(Dep, lambda x: (x in r.should_only_violations_by_no_import) == (b.should_only and (not b.behavior_exception) and G_layer_abstract(g, u, L, x))) "
+          "and forall(Dep, lambda x: (x in r.should_only_violations_by_forbidden_import) == (b.should_only and (not b.behavior_exception) and G_other_realised(g, u, x) and cross_layer(L, x))) "
+          "and forall(Dep, lambda x: (x in r.should_except_violations) == (b.should and b.behavior_exception and G_layer_missing(g, u, L, x))) "
+          "and forall(Dep, lambda x: (x in r.should_only_except_violations_by_no_import) == (b.should_only and b.behavior_exception and G_layer_missing(g, u, L, x))) "
+          "and forall(Dep, lambda x: (x in r.should_only_except_violations_by_forbidden_import) == (b.should_only and b.behavior_exception and G_realised(g, u, x) and cross_layer(L, x))) "
+          "and forall(Dep, lambda x: (x in r.should_not_except_violations) == (b.should_not and b.behavior_exception and G_other_realised(g, u, x) and cross_layer(L, x)))")
+# the table handed to _update_layer_mapping, as a relation over the two conversion results (the local dict itself is not visible in the postcondition)
+REG.macro("lm_expanded2", ["F", "A", "B", "m"],
+          "exists(Filter, lambda f: (f in F) and (((not is_regex(f)) and m == f2m(f)) or (is_regex(f) and (((fid(f) in A) and (m in A[fid(f)])) or ((fid(f) in B) and (m in B[fid(f)]))))))")
+REG.macro("lm_updated2", ["L0", "A", "B", "L1"],
+          "forall(LayerName, lambda l: (l in layers_of(L1)) == (l in layers_of(L0))) and "
+          "forall(LayerName, Mod, lambda l, m: implies(l in layers_of(L0), (m in lm_mods(L1, l)) == lm_expanded2(lm_filters(L0, l), A, B, m)))")
+_UM = "self._updated_module_requirement"
+REG.add(Contract(f"{LRM}._find_rule_violations", module=M_RM2, qualname="RuleMatcher._find_rule_violations", kind="method",
+                 params=dict(self=LRM, evaluable="EvaluableArchitectureGraph"), returns="RuleViolations", modifies=["self"],
+                 requires=["WF(evaluable._graph)", f"no_regex({_UM}._importers)", f"no_regex({_UM}._importees)"],
+                 raises=[("NetworkXError", f"fv_raises(evaluable._graph, {_UM}, self._behavior_requirement)")],
+                 ensures=[f"layer_FV_post(evaluable._graph, {_UM}, self._behavior_requirement, self._updated_layer_mapping, result)",
+                          # C05: the mapping the detector judges with has the architecture's layers, regex layers replaced by the modules the two conversions matched
+                          "lm_updated2(self._layer_mapping, self._conversion_mapping_importers, self._conversion_mapping_importees, self._updated_layer_mapping)"]
+                 + [f"self.{f} == old(self).{f}" for f in _RM_FIELDS_L if f != "_updated_layer_mapping"],
+                 use_at_end=[f"{L}(evaluable._graph, {_UM}._importers, {_UM}._importees, {_UM}._importer_specified_as_rule_subject, unwrap(explicitly_requested_dependencies))" for L in ("L_realised",)]
+                 + [f"LL_abstract(evaluable._graph, {_UM}._importers, {_UM}._importees, {_UM}._importer_specified_as_rule_subject, self._updated_layer_mapping, unwrap(explicitly_requested_dependencies))"]
+                 + [f"{L}(evaluable._graph, {_UM}._importers, {_UM}._importees, {_UM}._importees_as_specified_by_user, unwrap(not_explicitly_requested_dependencies))" for L in ("L_or_f", "L_or_r")]
+                 + [f"{L}(evaluable._graph, {_UM}._importers, {_UM}._importees, {_UM}._importees_as_specified_by_user, self._updated_layer_mapping, unwrap(not_explicitly_requested_dependencies))" for L in ("LL_missing_f", "LL_missing_r")],
+                 opaque=["realised_b", "realised_m_b", "layer_abstract_b", "layer_missing_b", "G_realised_b", "G_or_f", "G_or_r", "G_layer_abstract_b", "G_layer_missing_f", "G_layer_missing_r"],
+                 cases=[f"{_UM}._importer_specified_as_rule_subject", "self._behavior_requirement.behavior_exception"],
+                 properties=["C05"]))
